@@ -169,7 +169,7 @@ func init() {
 			what string
 		}{
 			{L("(recv.Route == nil)", true), "a configuration without route"},
-			{L("(len(recv.Route.Receiver) == 0)", true), "a root route without receiver"},
+			{LRe(`\(len\(recv\.Route\.Receiver\) == 0\)|\(recv\.Route\.Receiver == ""\)`, true), "a root route without receiver"},
 			{nonEmptyLit("recv.Route.Match"), "a root route with match"},
 			{nonEmptyLit("recv.Route.MatchRE"), "a root route with match_re"},
 			{nonEmptyLit("recv.Route.Matchers"), "a root route with matchers"},
